@@ -588,5 +588,70 @@ theorem twoSum_exact (u v : F64) (hu : IsRep u) (hv : IsRep v)
     have := hrep.rn_eq r1
     linarith
 
+/-- the low word is no larger than either input (so it is far from overflow) -/
+theorem twoSum_low_le (u v : F64) (hu : IsRep u) (hv : IsRep v)
+    (hub : |u.val| ≤ (2:ℚ) ^ (1018:ℤ)) (hvb : |v.val| ≤ (2:ℚ) ^ (1018:ℤ)) :
+    |(MathF.sum u v).2.val| ≤ |u.val| ∧ |(MathF.sum u v).2.val| ≤ |v.val| := by
+  obtain ⟨_, _, _, r1, _, hs⟩ := twoSum_exact u v hu hv hub hvb
+  have e : (MathF.sum u v).2.val = -((MathF.sum u v).1.val - (u.val + v.val)) := by linarith
+  rw [e, abs_neg]
+  constructor
+  · have := r1.nearest hv.2
+    rwa [show v.val - (u.val + v.val) = -u.val by ring, abs_neg] at this
+  · have := r1.nearest hu.2
+    rwa [show u.val - (u.val + v.val) = -v.val by ring, abs_neg] at this
+
+theorem IsRep.neg_fin (s : Bool) (m : ℕ) (e : ℤ) (h : IsRep (F64.fin s m e)) : IsRep (F64.neg (F64.fin s m e)) := by
+  refine ⟨rfl, ?_⟩
+  rw [neg_fin_val]; exact h.2.neg
+
+/-- `remainder(x, 360)` of a representable `x` is representable (and at most 180 in magnitude) -/
+theorem remainder360_rep (s : Bool) (m : ℕ) (e : ℤ) (h : IsRep (F64.fin s m e)) :
+    IsRep (remainder (F64.fin s m e) (F64.fin false 360 0)) ∧
+    |(remainder (F64.fin s m e) (F64.fin false 360 0)).val| ≤ 180 := by
+  obtain ⟨hfin, hval, hb, _⟩ := remainder_spec s false m 360 e 0 (by norm_num)
+  have h360 : (F64.fin false 360 0).val = 360 := by rw [val_fin]; simp
+  rw [h360] at hval hb
+  rw [abs_of_pos (by norm_num : (0:ℚ) < 360)] at hb
+  have hb' : |(remainder (F64.fin s m e) (F64.fin false 360 0)).val| ≤ 180 := by linarith
+  refine ⟨⟨hfin, ?_⟩, hb'⟩
+  obtain ⟨g, c, hg, hc, hx⟩ := h.2
+  set n := remquoN (F64.fin s m e) (F64.fin false 360 0) with hn
+  set r := (remainder (F64.fin s m e) (F64.fin false 360 0)).val with hr
+  -- |r| ≤ |x|
+  have hrx : |r| ≤ |(F64.fin s m e).val| := by
+    by_cases hbig : (180:ℚ) ≤ |(F64.fin s m e).val|
+    · linarith
+    · have hlt : |(F64.fin s m e).val| < 180 := not_le.mp hbig
+      have hn0 : n = 0 := by
+        have h1 : |(n:ℚ) * 360| < 360 := by
+          have e1 : (n:ℚ) * 360 = (F64.fin s m e).val - r := by rw [hval]; ring
+          rw [e1]
+          have := abs_sub (F64.fin s m e).val r
+          linarith
+        rw [abs_mul, abs_of_pos (by norm_num : (0:ℚ) < 360)] at h1
+        have h2 : |(n:ℚ)| < 1 := by linarith
+        rw [← Int.cast_abs] at h2
+        have : |n| < 1 := by exact_mod_cast h2
+        have := abs_nonneg n
+        have : |n| = 0 := by omega
+        exact abs_eq_zero.mp this
+      rw [hval, hn0]; simp
+  have hgx : OnGrid c (F64.fin s m e).val := ⟨g, hx⟩
+  have hg360 : OnGrid 3 ((n:ℚ) * 360) := ⟨n * 45, by push_cast; ring⟩
+  by_cases hc3 : c ≤ 3
+  · refine Rep.of_grid (c := c) ?_ hc ?_
+    · rw [hval]; exact hgx.sub (hg360.coarsen hc3)
+    · refine le_trans hrx ?_
+      rw [hx, abs_mul, abs_of_pos (Dy.two_zpow_pos c), add_comm, Dy.two_zpow_split]
+      apply mul_le_mul_of_nonneg_right _ (Dy.two_zpow_pos c).le
+      rw [← Int.cast_abs]
+      have e53 : (2:ℚ) ^ (53:ℤ) = ((2 ^ 53 : ℤ) : ℚ) := by norm_num
+      rw [e53]; exact_mod_cast (le_of_lt hg)
+  · refine Rep.of_grid (c := 3) ?_ (by norm_num) ?_
+    · rw [hval]; exact (hgx.coarsen (by omega)).sub hg360
+    · have : (180:ℚ) ≤ (2:ℚ) ^ (3 + 53 : ℤ) := by norm_num
+      linarith
+
 end F64
 end GeoVerif
